@@ -17,8 +17,10 @@ import (
 	"os"
 	"path/filepath"
 	"reflect"
+	"regexp"
 	"runtime/debug"
 	"sort"
+	"strconv"
 	"strings"
 	"testing"
 
@@ -255,7 +257,13 @@ func runInstances(u *vk.Unit, p *reg.Package, meta Meta, pkg string) {
 			}
 			pv2, err := unmarshal(rt, b)
 			if err != nil {
-				u.Report(vk.F("own-encoding-refused", "type %s: own encoding %s is refused by the decoder: %v", cn, b, err), cs)
+				cl := "own-encoding-refused"
+				if strings.Contains(err.Error(), `"{" expected: unexpected byte 110 'n'`) && strings.Contains(string(b), "null") {
+					// null written for a nil pointer of an object type, refused by that object's decoder:
+					// the known nullable-object root cause (see the values unit)
+					cl = "null-for-nullable-object"
+				}
+				u.Report(vk.F(cl, "type %s: own encoding %s is refused by the decoder: %v", cn, b, err), cs)
 				continue
 			}
 			if ok, where := valgen.Equal(pv.Elem(), pv2.Elem(), valgen.EqOpts{}); !ok {
@@ -343,6 +351,13 @@ func runValues(u *vk.Unit, p *reg.Package, meta Meta, pkg string) {
 				u.Sample(map[string]any{"type": n, "encoded": string(b)})
 				if isComp {
 					if ok, why := vd.Valid(schema, back); !ok {
+						if strings.HasSuffix(why, ": duplicate items") && duplicatesAreTimeTexts(back, strings.TrimSuffix(why, ": duplicate items")) {
+							// the builder cannot know which time format a time.Time member has: two instants that
+							// differ below the format's resolution are distinct Go values with one text; such a
+							// value is outside the format's value space, not an encoder fault
+							u.Label("excluded:times-differ-below-format-resolution")
+							continue
+						}
 						cl := "encoded-json-invalid"
 						if strings.Contains(why, "minProperties") || strings.Contains(why, "maxProperties") {
 							cl = "property-count-not-in-validate"
@@ -383,4 +398,52 @@ func runValues(u *vk.Unit, p *reg.Package, meta Meta, pkg string) {
 			}
 		}
 	}
+}
+
+var timeTextRe = regexp.MustCompile(`^(\d{4}-\d{2}-\d{2}|\d{2}:\d{2}:\d{2}(\.\d+)?|\d{4}-\d{2}-\d{2}[Tt]\d{2}:\d{2}:\d{2}.*)$`)
+
+// duplicatesAreTimeTexts: the array at the reference validator's path ("$", "$.a[0].b") holds
+// date / time / date-time texts.
+func duplicatesAreTimeTexts(doc any, path string) bool {
+	cur := doc
+	rest := strings.TrimPrefix(path, "$")
+	for rest != "" {
+		switch rest[0] {
+		case '.':
+			rest = rest[1:]
+			end := strings.IndexAny(rest, ".[")
+			if end < 0 {
+				end = len(rest)
+			}
+			m, ok := cur.(map[string]any)
+			if !ok {
+				return false
+			}
+			cur, rest = m[rest[:end]], rest[end:]
+		case '[':
+			end := strings.IndexByte(rest, ']')
+			if end < 0 {
+				return false
+			}
+			i, err := strconv.Atoi(rest[1:end])
+			l, ok := cur.([]any)
+			if err != nil || !ok || i >= len(l) {
+				return false
+			}
+			cur, rest = l[i], rest[end+1:]
+		default:
+			return false
+		}
+	}
+	l, ok := cur.([]any)
+	if !ok || len(l) == 0 {
+		return false
+	}
+	for _, e := range l {
+		st, ok := e.(string)
+		if !ok || !timeTextRe.MatchString(st) {
+			return false
+		}
+	}
+	return true
 }
